@@ -203,6 +203,41 @@ def hnOp (ws : List String) : Option String := do
   let min ← kvNat? ws "min"
   pure (hdrRoundTrip (Header.new min))
 
+/-- `ts via=<new|set> s= n=`: a timestamp through the constructor or through the two setters (from 0 s 0 ns);
+    if accepted, a Sync carrying it is serialised and parsed back -/
+def tsOp (ws : List String) : Option String := do
+  let via ← kv? ws "via"
+  let s ← kvNat? ws "s"
+  let n ← kvNat? ws "n"
+  let (verdict, t?) : String × Option Timestamp :=
+    if via = "new" then
+      match Timestamp.new s n with
+      | .ok t => ("new=ok", some t)
+      | .error _ => ("new=err", none)
+    else
+      let t0 : Timestamp := ⟨0, 0⟩
+      match t0.trySetSeconds s with
+      | .error _ =>
+        (match t0.trySetNanos n with
+          | .ok _ => ("sec=err nan=ok", none)
+          | .error _ => ("sec=err nan=err", none))
+      | .ok t1 =>
+        match t1.trySetNanos n with
+        | .ok t2 => ("sec=ok nan=ok", some t2)
+        | .error _ => ("sec=ok nan=err", none)
+  match t? with
+  | none => pure s!"{verdict} rejected"
+  | some t =>
+    let m : Message := { header := Header.new 1, body := .sync t, suffix := [] }
+    match m.serialize (List.replicate 64 0) with
+    | .error f => pure s!"{verdict} {failStr f}"
+    | .ok out =>
+      let back := match Message.deserialize out with
+        | .ok m2 => if m2 = m then "eq" else "neq"
+        | .error f => failStr f
+      let hx := hexOfBytes out
+      pure s!"{verdict} ser={hx} back={back}"
+
 def stepLine (st : St) (line : String) : St × String :=
   match words line with
   | "cfg" :: ws =>
@@ -214,6 +249,7 @@ def stepLine (st : St) (line : String) : St × String :=
   | "sz" :: ws => (st, (szOp ws).getD "bad-op")
   | "hd" :: ws => (st, (hdOp ws).getD "bad-op")
   | "hn" :: ws => (st, (hnOp ws).getD "bad-op")
+  | "ts" :: ws => (st, (tsOp ws).getD "bad-op")
   | "scfg" :: ws =>
     match kvNat? ws "domain", (kv? ws "active").bind parseBool with
     | some d, some a => ({ st with src := { st.src with domain := d, active := a } }, "ok")
